@@ -62,6 +62,16 @@ def l1_groupers(scratch):
         groups_ok = all(isinstance(x, str) for x in g.read_groups)
         if not groups_ok or "NA" not in g.read_groups:
             bad.append(("read_id:%s universe" % delim, "read_groups=%r after a read without delimiter (NA must be a group)" % (g.read_groups,)))
+    # ... and through the option parser (--read_group read_id:DELIM), as the pipeline builds the grouper
+    from types import SimpleNamespace
+    for delim in ("_", ":", "|", "_BC_", "::"):
+        try:
+            g = RG.create_read_grouper(SimpleNamespace(read_group="read_id:" + delim), None, "chr1")
+        except Exception as e:  # noqa
+            bad.append(("option read_id:%s" % delim, "create_read_grouper raised " + repr(e)))
+            continue
+        expect("option read_id:%s one delimiter" % delim, lambda: g.get_group_id(FakeAln("read%sA1" % delim)), "A1")
+        expect("option read_id:%s no delimiter" % delim, lambda: g.get_group_id(FakeAln("readA1")), "NA")
     # table
     tbl = os.path.join(scratch, "groups.tsv")
     with open(tbl, "w") as f:
